@@ -372,7 +372,7 @@ func (l *Lexer) quotedToken() (Token, error) {
 			s := l.chunk()
 
 			// Checks if it contains invalid octal or hexadecimal escape sequences.
-			if strings.ContainsRune(unquote(s), utf8.RuneError) {
+			if strings.ContainsRune(unquote(s), utf8.RuneError) && !validEscapes(s) {
 				return Token{kind: tokenInvalid, val: s}, nil
 			}
 
